@@ -49,8 +49,11 @@ enum Rk {
     Larger,  // two more limbs
     Shrunk,  // source's capacity, active size 1
     Smaller, // one limb less than the source's active size: insufficient
+    /// a re-used object of another shape with the byte capacity of the source's active size: half the ring degree, twice the limbs
+    /// (the reader may accept or reject it; whatever it does, the receiver must stay consistent with its buffer)
+    Reshaped,
 }
-const RKS: [Rk; 5] = [Rk::Same, Rk::Exact, Rk::Larger, Rk::Shrunk, Rk::Smaller];
+const RKS: [Rk; 6] = [Rk::Same, Rk::Exact, Rk::Larger, Rk::Shrunk, Rk::Smaller, Rk::Reshaped];
 impl Rk {
     fn name(self) -> &'static str {
         match self {
@@ -59,6 +62,7 @@ impl Rk {
             Rk::Larger => "larger",
             Rk::Shrunk => "shrunk",
             Rk::Smaller => "smaller",
+            Rk::Reshaped => "reshaped",
         }
     }
 }
@@ -548,6 +552,13 @@ fn recv_shape<T: Subject>(sh: &Shape, src_size: usize, rk: Rk) -> Option<Shape> 
             }
             rs.limbs = src_size - 1;
         }
+        Rk::Reshaped => {
+            if sh.n < 4 {
+                return None;
+            }
+            rs.n = sh.n / 2;
+            rs.limbs = 2 * src_size;
+        }
     }
     if !T::ok(&rs) {
         return None;
@@ -600,7 +611,13 @@ fn roundtrip_and_truncate<T: Subject>(cx: &mut Ctx, unit: u64, si: usize, sh: &S
     // ---- round trip
     // "sufficient capacity" is decided on the real buffer lengths (padding can make a one-limb-smaller receiver sufficient)
     let sufficient = s.parsed.leaves.len() == caps.len() && s.parsed.leaves.iter().zip(&caps).all(|(l, c)| (l.len as u128) <= *c);
-    let expect = if sufficient { Expect::MustOk } else { Expect::MustErr };
+    let expect = if rk == Rk::Reshaped {
+        Expect::Either
+    } else if sufficient {
+        Expect::MustOk
+    } else {
+        Expect::MustErr
+    };
     let out = do_read(&mut recv, &s.stream);
     let key = format!("{si}/{}/{}", src.name(), rk.name());
     cx.rep.case(&format!("roundtrip:{}", T::NAME), &key, sh.n >= 2);
